@@ -200,6 +200,7 @@ def api_differential(ctx, wide=False):
             # comparison is repeated at the default tolerances (iter = 100); only a difference there is reported.
             ref2, dis2 = CA.compare_all(spec, factors, mode, variants=[v for v in CA.VARIANTS if v[0] in {d[0] for d in dis}],
                                         opts=dict(iter=100))
+            dis2 = [d for d in dis2 if d[2] == "status"]      # values at tol 1e-5 are not comparable at 1e-9
             if not dis2:
                 ctx.count("status_differs_only_at_tol_1e-10")
                 continue
